@@ -147,6 +147,12 @@ def gen_valid_headers(rng, n, max_payload=600, big_every=200):
         afp = rng.choice(VALID_AFP)
         size = FAM_SIZE[afp >> 4]
         ab = rand_bytes(rng, size)
+        if size == 36 and i % 7 == 0:
+            # IPv4-mapped / special IPv6 values
+            m = lambda: rng.choice([bytes(10) + b"\xff\xff" + rand_bytes(rng, 4), bytes(16), bytes(15) + b"\x01", b"\xff" * 16, bytes(12) + rand_bytes(rng, 4)])
+            ab = m() + m() + rand_bytes(rng, 4)
+        elif size == 12 and i % 7 == 0:
+            ab = rng.choice([bytes(4), b"\xff" * 4, bytes([127, 0, 0, 1])]) + rng.choice([bytes(4), b"\xff" * 4]) + rng.choice([b"\x00\x00\xff\xff", b"\xff\xff\x00\x00"])
         kind = rng.random()
         if i % big_every == big_every - 1:
             budget = 65535 - size
